@@ -37,6 +37,21 @@ CHECKS = {
          'Every (grid size, nthread, npartition incl. default, axis) is decided by the real front end; for every accepted multi-stripe configuration the twins run on a boundary probe set and all same-phase stripe pairs are shown to touch disjoint cells, which makes all interleavings one Mazurkiewicz trace; small configurations and any conflicting one are additionally explored schedule by schedule (bounds 0,1,2) against the serial deposit. The explorer is self-checked on a seeded unsafe partition of the real kernel at every run.',
          'element-atomic sequentially consistent grid loads/stores; one virtual thread per prange iteration; interpreted twin = kernel source (conformance: compiled real-thread runs vs one thread)',
          'DESIGN.md 3.2-3.4, 4/C07'),
+ 'C08': ('exploration',
+         'exhaustive enumeration of mesh sizes x bin-edge families x mu/pi binnings x multipole sets x thread counts on the compiled kernels and on interpreted twins under four virtual thread schedules, against a full-mesh mode enumeration (modes_ref) with feasibility solving for modes within 2 ulp of an edge',
+         'For every configuration of the alphabet the integer mode counts must be reproducible by some assignment of near-edge shells, and the weighted sums (power, k, Legendre) must match within a float32 error bound; counts must be identical for every thread count and every virtual schedule, and per-thread accumulator rows must be private.',
+         'reference enumerates the full n1d^3 mesh with fftfreq wavenumbers in float64; on-edge shells may fall either side',
+         'DESIGN.md 4/C08'),
+ 'C11': ('exploration',
+         'kernel x boundary-input alphabet, every case executed as interpreted twin (numpy IndexError == numba out-of-bounds) and as compiled kernel in a NUMBA_BOUNDSCHECK=1 process',
+         'Full product per kernel of empty/single/zero-particle/one-cell-thick/boundary/out-of-range inputs inside the documented preconditions; any IndexError (twin) or IndexError/SystemError (bounds-checked build) is a violation; worker crashes are isolated and reported.',
+         'numpy index semantics == numba bounds semantics; boundscheck build faithful apart from the checks; HOD passes covered by C10',
+         'DESIGN.md 3.6, 4/C11'),
+ 'C12': ('exploration',
+         'exhaustive enumeration of subsample file sets (every permutation of halo ids over 1-3 slabs, 0-2 particles per halo, three id universes) x 16 option-flag combinations x tracer sets on the real AbacusHOD constructor; every attribute is a tagged function of the halo id',
+         'After the real constructor each per-halo array at row r must equal attr(hid[r], column) exactly, ids strictly increasing, and hid[pinds[p]] == phid[p].',
+         'light runs replace numpy.histogramdd (mass-function tables, outside the property) by a shape-preserving double; 1 in 12 file sets runs unmodified',
+         'DESIGN.md 4/C12'),
  'C14': ('model_checking',
          'explicit-state BFS over the real decompress loop (state read from the parser frame locals; transitions = next chunk length 0..remaining; every transition a real execution) + unmerged enumeration of all 2^(L-1) chunk compositions of short streams',
          'For each stream produced by the real compress the reachable parser states (offset, _size, _pos, _partial_len, buffered bytes, bytesout, output) are enumerated completely and every transition executed; the invariant (output = completed frames, final length/bytes = payload) is evaluated in every state. Merging is validated by brute-force enumeration of every composition of mini-frame streams.',
@@ -47,6 +62,11 @@ CHECKS = {
          'Nibble layer: every pattern of every 12-bit field pair; state machine: every sequence over {h1,h2,p1,p2} up to the depth bound incl. empty and particle-before-header, each replayed from scratch in 12 output configurations with a prefix-transition check; encode->decode round trip within one quantum.',
          'independent reference in vf/c15_ref.py (self-checked bijection on all 2^24 patterns); cpd<=0 headers excluded',
          'DESIGN.md 4/C15'),
+ 'C16': ('exploration',
+         'exhaustive enumeration of real ASDF particle files (column type x header kind x sizes x compression) x every subset/order of loadable columns x deprecated flag combinations x colname modes on read_asdf, against reference decoders',
+         'Exact column set, row count, dtype, values equal to the direct reference decode and bitwise identical across co-requests, meta == header (+SubsampleFraction for AbacusSummit light cones), ambiguity/absence raises unless colname is given.',
+         'deprecated load_pos/load_vel semantics as stated in ASSUMPTIONS; aux-only reads on rv files tolerated',
+         'DESIGN.md 4/C16'),
  'C17': ('model_checking',
          'exhaustive enumeration of small particle sets on a stripe-boundary alphabet x configurations, compiled with real threads and as interpreted twin with dynamic partial-order reduction (pairwise Bernstein independence of per-thread bodies, exactly-once output writes)',
          'All sequences up to length 2-3 over the boundary alphabet and structured families up to N=9, for every npartition/coord/dtype/weights/sort and thread counts incl. nthread > N: permutation with weights attached, stripe membership by exact rational floor, monotone starts, sortedness; independence of the bodies of all three parallel regions proves schedule-independence.',
@@ -62,6 +82,11 @@ CHECKS = {
          'Every (length 0..9, initial, final, offset, dtype pairing, output length) combination is executed three ways and compared with numpy.cumsum; the loop body has no length-dependent branch beyond N=0/1, so 0..9 covers every path.',
          'numpy.cumsum as reference; numba boundscheck build faithful to the production build apart from the checks',
          'DESIGN.md 4/C19'),
+ 'C20': ('exploration',
+         'exhaustive enumeration of ASDF file sets (1-3 files, 5 columns of widths 1-8, shapes incl. empty and multi-dimensional, both endiannesses, none/zlib/blsc) x all ordered field lists of length <= 3 x {recording pipe, real os.pipe, CLI subprocess} against a byte-level reference stream; error alphabet (missing file/field at every position) must raise with zero bytes written',
+         'The emitted byte stream must equal count(int64) | width(int32) | concatenated raw bytes per field in request order; every error case must leave the consumer with zero bytes.',
+         'payload bytes generated first and arrays are views of them; compression labels verified in the written files',
+         'DESIGN.md 4/C20'),
 }
 
 NOT_YET = 'check not built yet in this session (planned, DESIGN.md section 4)'
